@@ -1021,6 +1021,8 @@ pub fn run(ctx: &mut Ctx) {
         check_tokens(ctx, &Tk::Facet, &[], "top\0a\0b");
         check_tokens(ctx, &Tk::Ngram { min: 1, max: 2, prefix: false }, &[], "a😀é");
     }
+    let t0 = std::time::Instant::now();
+    let mut slowest: (f64, String) = (0.0, String::new());
     let texts = ctx.budget(2500, 60_000);
     for _ in 0..texts {
         let mut rng = ctx.rng.fork();
@@ -1036,9 +1038,16 @@ pub fn run(ctx: &mut Ctx) {
                 if matches!(tk, Tk::Regex { .. }) { tk = Tk::Whitespace; }
             }
             let fls = gen_chain(&mut rng);
+            let t1 = std::time::Instant::now();
             check_tokens(ctx, &tk, &fls, &text);
+            let dt = t1.elapsed().as_secs_f64();
+            if dt > slowest.0 {
+                slowest = (dt, format!("{:?}+{:?} on {} bytes", tk, fls, text.len()));
+            }
         }
     }
+    ctx.report.notes.push(format!("timing (informative only): tokenizer cases {:.1}s, slowest {:.2}s: {}", t0.elapsed().as_secs_f64(), slowest.0, slowest.1));
+    let t0 = std::time::Instant::now();
     for _ in 0..ctx.budget(3000, 80_000) {
         snippet_direct(ctx);
     }
@@ -1048,4 +1057,5 @@ pub fn run(ctx: &mut Ctx) {
     for _ in 0..ctx.budget(500, 10_000) {
         collapse_case(ctx);
     }
+    ctx.report.notes.push(format!("timing (informative only): snippet + collapse cases {:.1}s", t0.elapsed().as_secs_f64()));
 }
